@@ -43,6 +43,7 @@ func allProps() []*PropSpec {
 		propC04(),
 		propC01(),
 		propC16(),
+		propC11(),
 	}
 }
 
@@ -385,6 +386,32 @@ func propC16() *PropSpec {
 			js = append(js, jobsN("json", "VerifJSONValue", pick(rng(1, 4), rng(1, 5)), "KeepNumbers symbolic: lexemes byte-identical when set (oracle of C07)")...)
 			js = append(js, jobsN("xml", "VerifXMLMixed", pick(rng(1, 1), rng(1, 2)), "KeepWhitespace symbolic (oracle of C06)")...)
 			js = append(js, jobsN("css", "VerifCSSNumber", pick(rng(1, 3), rng(1, 4)), "KeepCSS2 symbolic: no exponent notation when set (oracle of C04)")...)
+			js = append(js, Job{Pkg: "html", Fn: "VerifHTMLTwin", N: 0, ExpectFail: true, Desc: "vacuity twin"})
+			return js
+		},
+	}
+}
+
+func propC11() *PropSpec {
+	return &PropSpec{
+		ID:   "C11",
+		Rule: "one case = one feasible path of html.Minify / svg.Minify (and DataURI inside them) on a host template with a symbolic embedded payload and a symbolic registry (per media type: nothing / recording stub / failing stub); commutation oracle: the host output carries exactly stub(payload), the stub is called once with the documented media type and inline parameter, unregistered => bytes pass through, failing => the outer call fails; non-trivial = completes with a distinct symbolic output",
+		Assumptions: []string{"hosts: [prefix]<script A>P</script>, <style A>P</style>, <p style=P>, <p onclick=P>, <img src=data:MT,P>, <link href=data:...>, svg <style>P</style> and style attribute", "payload alphabets in harness/html/embed.go and harness/svg/embed.go", "type attributes from the listed set; the media type handed to the registry is the literal type attribute value"},
+		Outside:     []string{"real sub-minifiers inside real hosts (product of two symbolic runs)", "iframe/math/svg-in-html hosts, css url(data:) host", "position of the reported error inside the host document (only err != nil is decided)"},
+		Stubs:       []string{"embedded minifiers are recording stubs producing [[payload]]"},
+		Jobs: func(tier string) []Job {
+			var js []Job
+			q := tier == "quick"
+			pick := func(a, b []int) []int {
+				if q {
+					return a
+				}
+				return b
+			}
+			js = append(js, jobsN("html", "VerifHTMLEmbedRaw", pick(rng(1, 3), rng(1, 4)), "script/style elements x type attributes x preceding raw element x registry modes, payload n bytes")...)
+			js = append(js, jobsN("html", "VerifHTMLEmbedAttr", pick(rng(1, 3), rng(1, 4)), "style / onclick attributes, payload n bytes")...)
+			js = append(js, jobsN("html", "VerifHTMLEmbedDataURI", pick(rng(1, 3), rng(1, 4)), "data: URIs in img src / link href with and without parameters")...)
+			js = append(js, jobsN("svg", "VerifSVGEmbed", pick(rng(1, 3), rng(1, 4)), "svg style element and style attribute")...)
 			js = append(js, Job{Pkg: "html", Fn: "VerifHTMLTwin", N: 0, ExpectFail: true, Desc: "vacuity twin"})
 			return js
 		},
